@@ -30,7 +30,7 @@ func C16(c *run.Ctx) {
 	events := []string{"accept", "reject", "pollR", "pollW", "pollWbody", "expire", "tick"}
 	maxLen := 4
 	if !c.Quick() {
-		maxLen = 5
+		maxLen = 6
 	}
 	var seqs [][]string
 	var gen func(cur []string)
